@@ -1,0 +1,18 @@
+//go:build verif
+
+package pl
+
+// Contracts for the goblvc verifier (see /verif/DESIGN.md). Comments only.
+//
+// C13 (Poland, NIP): ten digits; the tenth is the weighted sum of the first nine
+// (weights 6 5 7 2 3 4 5 6 7) modulo 11; a remainder of 10 matches no digit.
+//@ spec plW(i int) int = ite(i == 0, 6, ite(i == 1, 5, ite(i == 2, 7, ite(i == 3, 2, ite(i == 4, 3, ite(i == 5, 4, ite(i == 6, 5, ite(i == 7, 6, 7))))))))
+//@ rec plSum(s string, n int) int = ite(n <= 0, 0, plSum(s, n - 1) + (s_byte(s, n - 1) - 48) * plW(n - 1))
+//@ pred plDigits(s string, n int) bool = forall i int :: 0 <= i && i < n ==> s_byte(s, i) >= 48 && s_byte(s, i) <= 57
+//
+//@ func validateNIPChecksum(code) (ok)
+//@   requires forall i int :: 0 <= i && i < len(code) ==> s_byte(code, i) < 128
+//@   ensures [iff] ok <==> len(code) == 10 && plDigits(code, 10) && plSum(code, 9) % 11 == s_byte(code, 9) - 48
+//@   loop 1 invariant plDigits(code, $pos)
+//@   loop 2 invariant plDigits(code, 10) && len(digits) == 10 && forall j int :: 0 <= j && j < $pos ==> digits[j] == s_byte(code, j) - 48
+//@   loop 3 invariant plDigits(code, 10) && len(digits) == 10 && (forall j int :: 0 <= j && j < 10 ==> digits[j] == s_byte(code, j) - 48) && checkSum == plSum(code, idx)
